@@ -1,4 +1,6 @@
 import PewProofs.Extent
+import PewProofs.ExtentFloat
+import PewProofs.ExtentHist
 import PewTheorems.C09
 
 /-! # C10 — property theorems (statements only depend on `PewModel.Extent` / `PewModel.Srr`) -/
@@ -174,6 +176,158 @@ theorem get_trunc_fragile (j : Nat) (hj : 1 ≤ j) (d : Rat) (h1 : -1 < d) (h2 :
 
 example : toIndexOld ((53 : Nat) + (-(1 : Rat) / 1000000000000)) = 52 := by
   rw [get_trunc_fragile 53 (by decide) _ (by norm_num) (by norm_num)]; rfl
+
+/-! ## the float64 pipeline: what CPython evaluates, for every index up to 2²⁸
+
+`get_aligned_rect` takes the quotient error as a hypothesis.  Here it is discharged: with `fl` = the nearest binary64
+(`PewModel/Srr.lean`; normal exponent range), for EVERY positive pixel size and every boundary index `k ≤ 2²⁸`, a bound
+within `k·p / 2⁵⁰` of `k·p` - the caller's product `fl(p·k)`, the extent pewlib reports, one ulp up or down - divided in
+float64 by the pixel size and converted by `int(round(·, 6))` gives `k`. -/
+
+/-- Reading a pixel-aligned rectangle **in float64**: all positive pixel sizes, images up to 2²⁸ pixels per side,
+every `r0 ≤ r1 ≤ rows`, `c0 ≤ c1 ≤ cols`, bounds near their boundaries: the four converted indices are `c0, c1, r0, r1`
+and the read is `data[r0:r1, c0:c1]`. -/
+theorem get_float_aligned {α : Type} (data : Arr2 α) (pw ph : Rat) (hpw : 0 < pw) (hph : 0 < ph)
+    (r0 r1 c0 c1 : Nat) (hr : r0 ≤ r1) (hr1 : r1 ≤ data.rows) (hc : c0 ≤ c1) (hc1 : c1 ≤ data.cols)
+    (hrows : data.rows ≤ 2 ^ 28) (hcols : data.cols ≤ 2 ^ 28) (x0 x1 y0 y1 : Rat)
+    (h1 : NearBoundary x0 pw c0) (h2 : NearBoundary x1 pw c1) (h3 : NearBoundary y0 ph r0) (h4 : NearBoundary y1 ph r1) :
+    toIndex (fl (x0 / pw)) = c0 ∧ toIndex (fl (x1 / pw)) = c1 ∧ toIndex (fl (y0 / ph)) = r0 ∧ toIndex (fl (y1 / ph)) = r1 ∧
+    getQ data (fl (x0 / pw)) (fl (x1 / pw)) (fl (y0 / ph)) (fl (y1 / ph)) = rectSpec data r0 r1 c0 c1 := by
+  have i1 := toIndex_float pw x0 c0 hpw (by omega) h1
+  have i2 := toIndex_float pw x1 c1 hpw (by omega) h2
+  have i3 := toIndex_float ph y0 r0 hph (by omega) h3
+  have i4 := toIndex_float ph y1 r1 hph (by omega) h4
+  refine ⟨i1, i2, i3, i4, ?_⟩
+  unfold getQ
+  rw [i1, i2, i3, i4]
+  exact slice_aligned data r0 r1 c0 c1 hr1 hr hc1 hc
+
+/-- `Laser.get(extent=…)` of a configuration, in float64, for bounds near pixel boundaries -/
+theorem get_float_config {α : Type} (c : Cfg) (hpos : c.Positive) (data : Arr2 α)
+    (r0 r1 c0 c1 : Nat) (hr : r0 ≤ r1) (hr1 : r1 ≤ data.rows) (hc : c0 ≤ c1) (hc1 : c1 ≤ data.cols)
+    (hrows : data.rows ≤ 2 ^ 28) (hcols : data.cols ≤ 2 ^ 28) (e : Ext)
+    (h1 : NearBoundary e.x0 c.pixelWidthF c0) (h2 : NearBoundary e.x1 c.pixelWidthF c1)
+    (h3 : NearBoundary e.y0 c.pixelHeightF r0) (h4 : NearBoundary e.y1 c.pixelHeightF r1) :
+    getF c data e = rectSpec data r0 r1 c0 c1 :=
+  (get_float_aligned data _ _ (pixelF_pos c hpos).1 (pixelF_pos c hpos).2 r0 r1 c0 c1 hr hr1 hc hc1 hrows hcols
+    e.x0 e.x1 e.y0 e.y1 h1 h2 h3 h4).2.2.2.2
+
+/-- **Reading an image's own extent returns the whole image, in float64**: every configuration with positive
+parameters, every image up to 2²⁸ pixels per side; the extent is the one `Laser.extent` computes in float64
+(`fl(fl(speed·scantime)·columns)` …), the read divides it again in float64. -/
+theorem get_float_own_extent {α : Type} (c : Cfg) (hpos : c.Positive) (data : Arr2 α)
+    (hrows : data.rows ≤ 2 ^ 28) (hcols : data.cols ≤ 2 ^ 28) :
+    getF c data (laserExtentF c data) = data := by
+  obtain ⟨hw, hh⟩ := pixelF_pos c hpos
+  have key := get_float_config c hpos data 0 data.rows 0 data.cols (Nat.zero_le _) (Nat.le_refl _) (Nat.zero_le _) (Nat.le_refl _)
+    hrows hcols (laserExtentF c data) (zero_near _) (fl_mul_near _ _ hw) (zero_near _) (fl_mul_near _ _ hh)
+  rw [key]
+  cases data; simp [rectSpec]
+
+example : getF (.raster 35 (17 / 10) (1 / 10)) ({ rows := 59, cols := 53, get := fun r c => r * 53 + c } : Arr2 Nat)
+      (laserExtentF (.raster 35 (17 / 10) (1 / 10)) ({ rows := 59, cols := 53, get := fun r c => r * 53 + c } : Arr2 Nat))
+    = { rows := 59, cols := 53, get := fun r c => r * 53 + c } :=
+  get_float_own_extent _ (by simp [Cfg.Positive]) _ (by norm_num) (by norm_num)
+
+/-- **The float64 extent against the property's formula**: for positive parameters each value `Laser.extent` computes
+is within a relative `2⁻⁵¹` of `(0, columns × pixel width, 0, rows × pixel height)` (the zeros are exact). -/
+theorem extent_float_close (c : Cfg) (hpos : c.Positive) (rows cols : Nat) :
+    (c.dataExtentF [rows, cols]).x0 = (c.specExtent rows cols).x0 ∧
+    (c.dataExtentF [rows, cols]).y0 = (c.specExtent rows cols).y0 ∧
+    |(c.dataExtentF [rows, cols]).x1 - (c.specExtent rows cols).x1| ≤ (c.specExtent rows cols).x1 / 2 ^ 51 ∧
+    |(c.dataExtentF [rows, cols]).y1 - (c.specExtent rows cols).y1| ≤ (c.specExtent rows cols).y1 / 2 ^ 51 := by
+  have one : ∀ (p : Rat) (n : Nat), 0 < p → |fl (p * (n : Rat)) - (n : Rat) * p| ≤ (n : Rat) * p / 2 ^ 51 := by
+    intro p n hp
+    have h := fl_relerr (p * (n : Rat))
+    rw [abs_of_nonneg (mul_nonneg hp.le (Nat.cast_nonneg n))] at h
+    have e : (n : Rat) * p = p * (n : Rat) := by ring
+    rw [e]
+    have : p * (n : Rat) / 2 ^ 53 ≤ p * (n : Rat) / 2 ^ 51 :=
+      div_le_div_of_nonneg_left (mul_nonneg hp.le (Nat.cast_nonneg n)) (by positivity) (by norm_num)
+    linarith
+  cases c with
+  | raster s v t =>
+    obtain ⟨hs, hv, ht⟩ := hpos
+    refine ⟨rfl, rfl, ?_, ?_⟩
+    · simpa [Cfg.dataExtentF, Cfg.specExtent, extentSpec, Cfg.pixelWidthF] using extent_value_close v t cols hv ht
+    · simpa [Cfg.dataExtentF, Cfg.specExtent, extentSpec, Cfg.pixelHeightF] using one s rows hs
+  | spot sx sy =>
+    obtain ⟨hx, hy⟩ := hpos
+    refine ⟨rfl, rfl, ?_, ?_⟩
+    · simpa [Cfg.dataExtentF, Cfg.specExtent, extentSpec, Cfg.pixelWidthF] using one sx cols hx
+    · simpa [Cfg.dataExtentF, Cfg.specExtent, extentSpec, Cfg.pixelHeightF] using one sy rows hy
+
+/-- the bounds a caller computes are near their boundaries: the float product `fl(p · k)` (also what `data_extent`
+reports), and anything within one ulp (relative `2⁻⁵²`) of a value that is within `2⁻⁵²` of the exact product -/
+theorem caller_bounds_near (p : Rat) (k : Nat) (hp : 0 < p) :
+    NearBoundary (fl (p * (k : Rat))) p k ∧
+    (∀ b b' : Rat, |b - (k : Rat) * p| ≤ (k : Rat) * p / 2 ^ 52 → |b' - b| ≤ |b| / 2 ^ 52 → NearBoundary b' p k) :=
+  ⟨fl_mul_near p k hp, fun b b' h1 h2 => near_of_close b b' p k hp h1 h2⟩
+
+/-- Why six decimals and not twelve (the seeded change C10-c1): a quotient one float64 rounding below the boundary 6848
+(`6848 - 2⁻⁴⁰`, well inside `NearBoundary`) is converted to 6848 by `int(round(q, 6))` and to 6847 by `int(round(q, 12))`. -/
+theorem round12_fragile :
+    toIndex ((6848 : Rat) - 1 / 2 ^ 40) = 6848 ∧ toIndex12 ((6848 : Rat) - 1 / 2 ^ 40) = 6847 ∧
+    NearBoundary (((6848 : Rat) - 1 / 2 ^ 40) * (3 / 10)) (3 / 10) 6848 := by
+  refine ⟨?_, ?_, ?_⟩
+  · exact toIndex_near _ 6848 (by norm_num) (by norm_num)
+  · unfold toIndex12 round12
+    have : roundHalfEven (((6848 : Rat) - 1 / 2 ^ 40) * 1000000000000) = 6847999999999999 :=
+      roundHalfEven_near _ _ (by norm_num) (by norm_num)
+    rw [this]
+    unfold trunc
+    rw [if_pos (by norm_num)]
+    exact floor_eq_of_bounds _ _ (by norm_num) (by norm_num)
+  · rw [nearBoundary_iff]; rw [abs_le]; constructor <;> norm_num
+
+/-! ## histories on configuration objects and lasers -/
+
+/-- **What a laser shows depends on nothing but the last writes**: for EVERY history of the operations create / copy a
+configuration object, create a laser, `laser.config = obj` (objects may be shared by several lasers), `obj.attr = v`,
+`laser.data = array`, the configuration and shape laser `l` shows after the left fold `Heap.run` are the ones read off
+the history backwards (`viewSpec`: newest assignment of each attribute of the object held now, else its constructor
+value - for a copy, what the original held at that moment; newest data assignment).  No hypothesis: operations that
+name an object or laser that does not exist change nothing on both sides. -/
+theorem hist_view_spec (ops : List HOp) (l : Nat) : (Heap.run ops).view l = viewSpec ops.reverse l := by
+  obtain ⟨_, _, attr, kind, held, shape⟩ := inv_run ops
+  unfold Heap.view viewSpec
+  rw [← held l, ← shape l]
+  cases hl : (Heap.run ops).lasers[l]? with
+  | none => rfl
+  | some x =>
+    simp only [Option.map_some]
+    rw [← kind x.cfg, ← attr x.cfg .spotsize, ← attr x.cfg .speed, ← attr x.cfg .scantime, ← attr x.cfg .spotsizeY]
+    cases (Heap.run ops).cfgs[x.cfg]? with
+    | none => rfl
+    | some o => rfl
+
+/-- hence the extent it reports is `(0, columns × pixel width, 0, rows × pixel height)` of the configuration and shape
+that are current then, whatever happened before -/
+theorem hist_extent_spec (ops : List HOp) (l : Nat) : (Heap.run ops).extent l = extentHistSpec ops.reverse l := by
+  unfold Heap.extent extentHistSpec
+  rw [hist_view_spec]
+  cases viewSpec ops.reverse l with
+  | none => rfl
+  | some v =>
+    obtain ⟨c, rows, cols⟩ := v
+    simp only [Option.map_some]
+    congr 1
+    have h := extent_spec ({ rows := rows, cols := cols, get := fun _ _ => () } : Arr2 Unit)
+    cases c with
+    | raster s v t => simpa [laserExtent, Cfg.specExtent] using h.1 s v t
+    | spot sx sy => simpa [laserExtent, Cfg.specExtent] using h.2 sx sy
+
+/-- non-vacuity: one configuration object shared by two lasers, edited through neither; a copy taken before the edit
+keeps the old value; the second laser gets new data -/
+example :
+    let ops := [HOp.newCfg (.ofCfg (.raster 35 140 (1 / 4))), .newLaser 0 5 7, .copyCfg 0, .newLaser 1 5 7, .newLaser 0 2 3,
+                .setAttr 0 .scantime (1 / 2), .setData 2 4 9]
+    (Heap.run ops).extent 0 = some (extentSpec 70 35 5 7) ∧ (Heap.run ops).extent 1 = some (extentSpec 35 35 5 7) ∧
+    (Heap.run ops).extent 2 = some (extentSpec 70 35 4 9) := by
+  intro ops
+  simp only [hist_extent_spec]
+  refine ⟨?_, ?_, ?_⟩ <;> (simp [ops, extentHistSpec, viewSpec, heldSpec, shapeSpec, kindSpec, attrSpec, countCfgs, countLasers,
+    CfgObj.ofCfg, CfgObj.getAttr, cfgOf, Cfg.specExtent]; try norm_num)
 
 /-- For an SRR image the extent divided by the reconstructed pixel size is the shape of the
 reconstruction (`Srr.reconCols` columns, `Srr.reconRows` rows; these are the shape of
